@@ -36,9 +36,35 @@ func init() {
 			h := []int{24, 24, 8, 50}[r.Intn(4)]
 			dir := []string{"forward", "backward"}[r.Intn(2)]
 			sp := Spec{Prompt: "> ", Mode: "emacs", Runs: 1, Width: w, Height: h, Completer: cands}
+			// the word being completed: empty, a prefix of every candidate, or (completion-ignore-case) a prefix
+			// in another case — every candidate still matches and takes the place of the word
+			typed := ""
+			switch r.Intn(4) {
+			case 0:
+				typed = "ca"
+			case 1:
+				typed = []string{"CA", "Ca", "cA", "CAND"}[r.Intn(4)]
+				sp.Inputrc = "set completion-ignore-case on\n"
+			case 2:
+				if r.Intn(2) == 0 {
+					typed = "ca"
+					sp.Inputrc = "set completion-ignore-case on\n"
+					for i := range cands {
+						if r.Intn(3) == 0 {
+							cands[i].Value = "C" + cands[i].Value[1:]
+						}
+					}
+				}
+			}
+			if kind == "aliased" {
+				typed, sp.Inputrc = "", ""
+			}
 			// TAB opens the menu (complete) and then is menu-complete in the menu-select keymap;
 			// Shift-TAB is menu-complete-backward there
 			var keys []string
+			for _, ch := range typed {
+				keys = append(keys, string(ch))
+			}
 			if dir == "backward" {
 				keys = append(keys, "\t")
 			}
@@ -50,7 +76,14 @@ func init() {
 				}
 			}
 			sp.Chunks = hexChunks(keys)
-			return Case{Specs: []Spec{sp}, Class: kind + "/" + dir, Meta: map[string]string{"n": fmt.Sprint(n), "kind": kind, "dir": dir}}
+			cl := kind + "/" + dir
+			if typed != "" {
+				cl += "/word"
+			}
+			if sp.Inputrc != "" {
+				cl += "/ignore-case"
+			}
+			return Case{Specs: []Spec{sp}, Class: cl, Meta: map[string]string{"n": fmt.Sprint(n), "kind": kind, "dir": dir, "typed": typed}}
 		},
 		oracle: func(c Case, trs []Trace) []Finding {
 			tr := trs[0]
@@ -72,7 +105,8 @@ func init() {
 			}
 			// the buffers shown after each invocation (wait k+1 is the state after key k)
 			var shown []string
-			for k := 1; k < len(tr.Waits); k++ {
+			typed := c.Meta["typed"]
+			for k := 1 + len([]rune(typed)); k < len(tr.Waits); k++ {
 				shown = append(shown, strings.TrimRight(tr.Waits[k].Line, " "))
 			}
 			if len(shown) < 2*n {
@@ -92,7 +126,7 @@ func init() {
 			}
 			seen := map[string]int{}
 			for _, s := range cycle {
-				if s == "" {
+				if s == typed {
 					continue
 				}
 				if !values[s] {
